@@ -532,6 +532,35 @@ func genSelect(r *repo) string {
 		b.WriteString("def llEndOfStream (plEndlist : Bool) : Bool := " + cond + "\n\n")
 	}
 
+	// runTraditional: the order of the three steps of its loop. The next segment must be selected from a playlist
+	// that was fetched AFTER the downloader had waited for the queue to drain ("re-fetching the playlist between
+	// segments"): reloading before the wait selects from a playlist that is one segment duration old - the
+	// request sequence is the same, so a poll-driven harness cannot see it.
+	{
+		const fn = "runTraditional"
+		fd := p.mustFunc("clientStreamDownloader", fn)
+		var order []string
+		ast.Inspect(fd.Body, func(nd ast.Node) bool {
+			if c, ok := nd.(*ast.CallExpr); ok {
+				switch selPrint(c.Fun) {
+				case "d.fillSegmentQueue":
+					order = append(order, "fillSegmentQueue")
+				case "d.segmentQueue.waitUntilSizeIsBelow":
+					order = append(order, "waitUntilSizeIsBelow")
+				case "d.downloadPlaylist":
+					order = append(order, "downloadPlaylist")
+				}
+			}
+			return true
+		})
+		q := make([]string, len(order))
+		for i, o := range order {
+			q[i] = leanStr(o)
+		}
+		b.WriteString("/-- `runTraditional`: calls of its loop in source order -/\n")
+		b.WriteString("def tradLoopOrder : List String := [" + strings.Join(q, ", ") + "]\n\n")
+	}
+
 	b.WriteString("end Hls.Gen.Select\n")
 	return b.String()
 }
